@@ -60,6 +60,8 @@ type OpEngine struct {
 	Funcs       map[string]bool
 	Closures    map[string]bool
 
+	// Checked counts the obligations performed, by rule|construct|what
+	Checked map[string]int
 	// leaf value ranges for the A3 (finiteness) obligations of the current instance, by role
 	LeafRng []spec.Ival
 	// when set, Rand draws etc. are recorded
@@ -67,7 +69,7 @@ type OpEngine struct {
 }
 
 func NewOpEngine(p *core.Program, a *spec.Anchors) *OpEngine {
-	e := &OpEngine{P: p, A: a, Funcs: map[string]bool{}, Closures: map[string]bool{}}
+	e := &OpEngine{P: p, A: a, Funcs: map[string]bool{}, Closures: map[string]bool{}, Checked: map[string]int{}}
 	e.M = interp.NewMachine(p.Prog)
 	e.M.Hooks = interp.Hooks{Enter: e.enter, Static: e.static, Invoke: e.invoke}
 	return e
@@ -244,6 +246,9 @@ func (e *OpEngine) static(m *interp.Machine, fn *ssa.Function, args []interp.Val
 	specT, specErr := splitResult(specRes)
 	e.ShapeChecks++
 	key := "cputensor." + opKey(name, hasRecv)
+	e.did("A4.pre", key)
+	e.did("A4.shape", key)
+	e.did("S1a.gctx", key)
 	switch {
 	case implErr && specErr:
 	case implErr && !specErr:
@@ -327,6 +332,9 @@ func (e *OpEngine) invoke(m *interp.Machine, recv interp.Value, method *types.Fu
 	}
 	return e.W.Method(method.Name(), t, args)
 }
+
+// did records that an obligation of the given rule was evaluated on the construct (whatever the outcome).
+func (e *OpEngine) did(rule, construct string) { e.Checked[rule+"|"+construct]++ }
 
 func (e *OpEngine) find(rule, construct, what, pos, detail string) {
 	wit := ""
